@@ -183,6 +183,31 @@ class Ctx:
                 module, cfg, r.rc, r.violated, tail(r.out, 60)))
         return r
 
+    def apalache(self, module, init, inv, length, cinit=None, timeout=600):
+        """Apalache symbolic check of an inductive invariant / lemma (unbounded in the integer quantities).
+        Returns "ok" (no counterexample) or "error" (counterexample); anything else raises Infra."""
+        work = os.path.join(self.scr, "apalache%d" % (getattr(self, "napa", 0) + 1))
+        self.napa = getattr(self, "napa", 0) + 1
+        os.makedirs(work, exist_ok=True)
+        shutil.copy(os.path.join(ROOT, "spec", "proofs", module), work)
+        cmd = ["apalache-mc", "check", "--init=" + init, "--inv=" + inv, "--length=%d" % length]
+        if cinit:
+            cmd.append("--cinit=" + cinit)
+        cmd.append(module)
+        t0 = time.time()
+        try:
+            p = subprocess.run(cmd, cwd=work, stdout=subprocess.PIPE, stderr=subprocess.STDOUT, text=True, timeout=timeout)
+        except subprocess.TimeoutExpired:
+            raise Infra("apalache timeout on %s %s/%s" % (module, init, inv))
+        out = p.stdout
+        self.tlc_runs.append({"tool": "apalache", "module": module, "init": init, "inv": inv, "length": length, "cinit": cinit or "",
+                              "wall_s": round(time.time() - t0, 1), "outcome": "ok" if "The outcome is: NoError" in out else "error" if "The outcome is: Error" in out else "?"})
+        if "The outcome is: NoError" in out:
+            return "ok"
+        if "The outcome is: Error" in out:
+            return "error"
+        raise Infra("apalache could not decide %s %s/%s:\n%s" % (module, init, inv, tail(out, 30)))
+
     def generate(self, module, cfg, tag="CASE", timeout=900, env=None):
         r = self.tlc(module, cfg, workers=1, timeout=timeout, env=env)
         if not r.ok:
